@@ -196,3 +196,9 @@ Definition check_dedup_case
       let cfg := mkCfg en tr hs early_mark late_mark in
       dobs_list_eqb (run_obs (tbl1 t) (tbl2 t) cfg (boot (tbl1 t) (tbl2 t) cfg m k cap D0) h) expected
   end.
+
+(* ---- concrete instances used by the witnesses (Example / ..._refuted) in props/C09.v ---- *)
+Definition wh1 (x : N) : N := x * 7 + 3.
+Definition wh2 (x : N) : N := x * 5 + 1.
+(* dedup on, trust on, store, mark_seen only AFTER the handler: the shape of _handle_message today *)
+Definition trust_cfg : config := mkCfg true true true false true.
